@@ -662,8 +662,21 @@ func c07Run(c *fw.C, caseID string) {
 	h := sha256.New()
 	for i := 0; i < nOps && !e.failed; i++ {
 		op := r.Intn(100)
-		if mode == "long" && op >= 8 && op < 60 {
-			op = 0 // mostly commits so that >500 identifiers and >360 heights of distance occur
+		if mode == "long" {
+			// mostly commits so that >500 identifiers and >360 heights of distance occur, but views far behind the
+			// frontier are opened (and thereby cached) before rollbacks and read after them
+			switch x := r.Intn(100); {
+			case x < 70:
+				op = 0 // commit
+			case x < 76:
+				op = 20 // rollback
+			case x < 88:
+				op = 32 // open a view at a past commit (a quarter of them at the oldest)
+			case x < 96:
+				op = 60 // read
+			default:
+				op = 75 // scan
+			}
 		}
 		h.Write([]byte{byte(op)})
 		switch {
